@@ -41,6 +41,11 @@ def jobs(tier, seed):
             out.append({"start": start, "first": None, "depth": 0})
             for elabel, d in hist.all_edits(start):
                 out.append({"start": start, "first": (elabel, d), "depth": depth})
+    # histories that pass through a failing plan: the globbing sub-plan is detached while the
+    # plan is broken, files come and go, and the repaired plan recycles it
+    start = {"fam": "f_glob", "knobs": {"cfg": 1}}
+    broken = {"fam": "f_glob", "knobs": {"cfg": 1, "broken": 1}}
+    out.append({"start": start, "first": ("broken=1", broken), "depth": 3})
     # conformance replays of the history engine against the real command line tool
     for fam in FAMILIES:
         if fam not in SCHEDULE_DEPENDENT_FAMILIES:
